@@ -14,7 +14,12 @@ def write_real_file(ctx, b, workdir, name, cfg, entries):
     if rc != 0:
         raise core.Infra("writer run failed rc=%s: %s" % (rc, err[-2000:]))
     s = R.decode(path)
-    return path, core.convert_events(evs), s
+    recs = core.convert_events(evs)
+    if cfg.get("prefix", 0) >= (1 << 30):          # TLC integers are 32 bits wide: the table's position is reported relative
+        for e in recs:
+            if e.get("e") == "WInit":
+                e["prefix"] = e["prefix"] - cfg["prefix"]
+    return path, recs, s
 
 
 def mktable_rec(path, ents):
